@@ -59,8 +59,13 @@ structure Row where
   att : Nat := 0
   /-- one mutable Facet member (`facets["MnemonicState"].salience`); 0 = absent -/
   fac : Nat := 0
-  /-- immutable epistemic payload of an Assertion / Evidence record as one code -/
+  /-- immutable epistemic payload of an Assertion / Evidence record as one code; for an Assertion
+  `100 * n + c`: `n` the row id of the Proposition it is about, `c < 100` its confidence -/
   pay : Nat := 0
+  /-- the retention block (`retention.retention_class`) as one code; 0 = none -/
+  ret : Nat := 0
+  /-- row ids this record points back at: `supersedes` of an Assertion, `corrects` of Evidence -/
+  links : List Nat := []
   deriving DecidableEq, Repr, Inhabited
 
 structure Elem where
@@ -72,7 +77,7 @@ structure Elem where
   deriving DecidableEq, Repr, Inhabited
 
 inductive Op where
-  | create | update | archive | tombstone | retract | purge
+  | create | update | archive | tombstone | retract | purge | supersede | correct | transition | setRetention
   deriving DecidableEq, Repr, Inhabited
 
 structure Change where
@@ -194,13 +199,20 @@ def hGet (m : List (Nat × Id)) (h : Nat) : Option Id :=
   | [] => none
   | (k, i) :: r => if k = h then some i else hGet r h
 
+/-- the identity stub `governance::purge::stub` puts in a row's place: a default row, every content
+column empty. For an Assertion that includes its lifecycle `status`, which is then the empty string —
+neither `active` (0) nor `retracted` (1), code 2: a `RETRACT … EXPECT STATE "active"` that follows the
+`PURGE` of the same Assertion (in the same statement or a later one) fails its guard. A shell
+(`insert_shell`) is the same default row in state `pending`. -/
+def stubRow (k : Kind) : Row := { val := if k = .concept ∨ k = .proposition then 0 else 2 }
+
 /-- the row every shell is inserted with: default row, `pending`, version 1 (`stamp_new`) -/
-def shellElem (seq : Nat) : Elem := { row := {}, version := 1, state := .pending, seq := seq }
+def shellElem (k : Kind) (seq : Nat) : Elem := { row := stubRow k, version := 1, state := .pending, seq := seq }
 
 /-- `Transaction::mint_shell`: insert a default row in state `pending`; the collection assigns the id. -/
 def mintShell (s : Store) (tx : Tx) (k : Kind) : Store × Tx × Id :=
   let id : Id := ⟨k, s.next k⟩
-  ({ s with elems := setElem s.elems id (some (shellElem tx.seq)), next := bump s.next k },
+  ({ s with elems := setElem s.elems id (some (shellElem k tx.seq)), next := bump s.next k },
    { tx with shells := tx.shells ++ [id] }, id)
 
 /-- `Transaction::declare` -/
@@ -327,6 +339,15 @@ inductive Clause where
   /-- `PURGE target [REFERENCE POLICY …] CONFIRM "PURGE"`; `bad`: refused while it is staged (still
   referenced under `deny_if_referenced`, legal hold, approval) -/
   | purge (t : Ref) (bad : Bool)
+  /-- `SUPERSEDE ASSERTION old BY new [EXPECT STATE status]` (`clauses::supersede`) -/
+  | supersede (t by_ : Ref) (expect : Option Nat)
+  /-- `CORRECT EVIDENCE old BY new` (`clauses::correct_evidence`; the parser accepts an `EXPECT STATE`
+  here and the clause never looks at it, so it is not part of the model's clause) -/
+  | correct (t by_ : Ref)
+  /-- `TRANSITION ACTIVITY target TO status [EXPECT STATE status]` (`clauses::transition`) -/
+  | transition (t : Ref) (to : Nat) (expect : Option Nat)
+  /-- `SET RETENTION target {retention_class: …} [EXPECT VERSION n]` (named target, no selection block) -/
+  | setRetention (t : Ref) (v : Nat) (expect : Option Nat)
   deriving Repr
 
 /-- `clauses::plan_pass` -/
@@ -431,12 +452,6 @@ def pRetract (id : Id) (expect : Option Nat) (s : Store) (tx : Tx) : PS :=
       else if x.row.val = 1 then .ok s tx1
       else .ok s (markChanged tx1 id { x with row := { x.row with val := 1 } } .retract)
 
-/-- the identity stub `governance::purge::stub` puts in a row's place: a default row, every content
-column empty. For an Assertion that includes its lifecycle `status`, which is then the empty string —
-neither `active` (0) nor `retracted` (1), code 2: a `RETRACT … EXPECT STATE "active"` that follows the
-`PURGE` of the same Assertion (in the same statement or a later one) fails its guard -/
-def stubRow (k : Kind) : Row := { val := if k = .assertion then 2 else 0 }
-
 /-- `PURGE` of one target (`clauses::purge`, `governance::purge::stage`, `Transaction::stage_purge`):
 the target is loaded; a dry run only warns; otherwise the staged row becomes the identity stub
 (content gone, state `purged`, version kept so that the commit bumps it once) and the element's
@@ -451,9 +466,77 @@ def pPurge (id : Id) (bad : Bool) (s : Store) (tx : Tx) : PS :=
         let y : Staged := { x with row := stubRow id.kind, state := .purged, changed := true, op := .purge, erase := true }
         .ok s { tx1 with staged := stSet tx1.staged id y }
 
+/-! Lifecycle status codes (`val` of an Assertion / Evidence / Activity row): 0 = as created (`active`,
+an Activity's `pending`), 1 = `retracted`, 2 = the empty status of an identity stub, 3 = `superseded`,
+4 = `corrected`, 5 = `running`, 6 = `completed`, 7 = `failed` (6 and 7 are terminal). -/
+
+/-- `is_terminal` of an Activity status, on the codes the generator uses -/
+def terminalStatus (v : Nat) : Bool := v == 6 || v == 7
+
+/-- a read-only check of two loaded rows (`a` is loaded first): refuses with what `pred` says -/
+def pCheck2 (a b : Id) (pred : Staged → Staged → Option Err) (s : Store) (tx : Tx) : PS :=
+  match load s tx a with
+  | .error e => .fail s tx e
+  | .ok (tx1, x) =>
+      match load s tx1 b with
+      | .error e => .fail s tx1 e
+      | .ok (tx2, y) =>
+          match pred x y with
+          | some e => .fail s tx2 e
+          | none => .ok s tx2
+
+/-- `f` applied to the mutable columns only -/
+def editRow (f : Row → Row) (r : Row) : Row := { f r with ty := r.ty, key := r.key, tup := r.tup, pay := r.pay }
+
+/-- one guarded edit of the mutable columns of a loaded row: the row must be of kind `k` (when one is
+asked for) and pass `guard`; the immutable columns are kept whatever `f` says; the element counts as
+changed when `always` (the clause calls `mark_changed` unconditionally) or when the row differs -/
+def pEdit (id : Id) (k : Option Kind) (guard : Staged → Option Err) (f : Row → Row) (always : Bool) (op : Op)
+    (s : Store) (tx : Tx) : PS :=
+  match load s tx id with
+  | .error e => .fail s tx e
+  | .ok (tx1, x) =>
+      if (match k with | some k => id.kind != k | none => false) then .fail s tx1 .invalid
+      else match guard x with
+        | some e => .fail s tx1 e
+        | none =>
+            if !always && editRow f x.row = x.row then .ok s tx1
+            else .ok s (markChanged tx1 id { x with row := editRow f x.row } op)
+
+def statusGuard (id : Id) (v : Nat) (x _y : Staged) : Option Err :=
+  if id.kind != .assertion then some .invalid else if x.row.val != v then some .precond else none
+
+/-- `Transaction::expect_assertion_status`: load, must be an Assertion, status must be the expected one -/
+def pExpectStatus (id : Id) (expect : Option Nat) (s : Store) (tx : Tx) : PS :=
+  match expect with
+  | none => .ok s tx
+  | some v => pCheck2 id id (statusGuard id v) s tx
+
+def noGuard (_ : Staged) : Option Err := none
+def setStatus (v : Nat) (r : Row) : Row := { r with val := v }
+def setRet (v : Nat) (r : Row) : Row := { r with ret := v }
+/-- `if !row.supersedes.contains(old) { push }` -/
+def addLink (n : Nat) (r : Row) : Row := if n ∈ r.links then r else { r with links := r.links ++ [n] }
+/-- SUPERSEDE: the replacement (`y`, loaded first) must be an Assertion about the Proposition the old one (`x`) is about -/
+def sameAbout (new : Id) (y x : Staged) : Option Err :=
+  if new.kind != .assertion then some .invalid else if y.row.pay / 100 != x.row.pay / 100 then some .invalid else none
+/-- TRANSITION: the `EXPECT STATE` guard, then "a terminal Activity is immutable" -/
+def transitionGuard (expect : Option Nat) (x : Staged) : Option Err :=
+  if (match expect with | some v => x.row.val != v | none => false) then some .precond
+  else if terminalStatus x.row.val then some .invalid else none
+
 /-- mint a shell, then continue with its id -/
 def pMint (k : Kind) (cont : Id → Store → Tx → PS) (s : Store) (tx : Tx) : PS :=
   cont (mintShell s tx k).2.2 (mintShell s tx k).1 (mintShell s tx k).2.1
+
+/-- the immutable payload code of a created record: an Assertion's carries the Proposition it is
+about (the first Proposition among its references) -/
+def recPay (k : Kind) (pay : Nat) (refs : List Id) : Nat :=
+  if k = .assertion then
+    match refs.find? (fun i => i.kind == .proposition) with
+    | some i => 100 * i.n + pay
+    | none => pay
+  else pay
 
 def expectNonZero (expect : Option Nat) : Bool :=
   match expect with
@@ -499,7 +582,7 @@ def applyClause (c : Clause) (s : Store) (tx : Tx) : PS :=
       | some id =>
           match resolveAll tx refs with
           | .error e => .fail s tx e
-          | .ok _ => (pGuard bad .invalid s tx).andThen (pStageNew id { pay := pay })
+          | .ok ids => (pGuard bad .invalid s tx).andThen (pStageNew id { pay := recPay id.kind pay ids })
   | .update t acts expect bad =>
       match resolve tx t with
       | .error e => .fail s tx e
@@ -518,6 +601,37 @@ def applyClause (c : Clause) (s : Store) (tx : Tx) : PS :=
       match resolve tx t with
       | .error e => .fail s tx e
       | .ok id => pPurge id bad s tx
+  | .supersede t by_ expect =>
+      match resolve tx t, resolve tx by_ with
+      | .error e, _ => .fail s tx e
+      | _, .error e => .fail s tx e
+      | .ok old, .ok new =>
+          -- self-supersession; the guard; `authorize_element` loads old, then new; old is marked
+          -- `superseded` and changed unconditionally; new must be an Assertion about the same
+          -- Proposition and gains the back link once
+          ((((((pGuard (old == new) .invalid s tx).andThen (pExpectStatus old expect)).andThen (pLoad old)).andThen (pLoad new)).andThen
+            (pEdit old (some .assertion) noGuard (setStatus 3) true .supersede)).andThen
+            (pCheck2 new old (sameAbout new))).andThen
+            (pEdit new (some .assertion) noGuard (addLink old.n) false .supersede)
+  | .correct t by_ =>
+      match resolve tx t, resolve tx by_ with
+      | .error e, _ => .fail s tx e
+      | _, .error e => .fail s tx e
+      | .ok old, .ok new =>
+          ((((pGuard (old == new) .invalid s tx).andThen (pLoad old)).andThen (pLoad new)).andThen
+            (pEdit old (some .evidence) noGuard (setStatus 4) true .correct)).andThen
+            (pEdit new (some .evidence) noGuard (addLink old.n) false .correct)
+  | .transition t to expect =>
+      match resolve tx t with
+      | .error e => .fail s tx e
+      | .ok id =>
+          pEdit id (some .activity) (transitionGuard expect) (setStatus to) true .transition s tx
+  | .setRetention t v expect =>
+      match resolve tx t with
+      | .error e => .fail s tx e
+      | .ok id =>
+          ((pLoad id s tx).andThen (pExpect id expect)).andThen
+            (pEdit id none noGuard (setRet v) false .setRetention)
 
 def declareAll (cs : List Clause) (p : PS) : PS :=
   cs.foldl (fun p c => p.andThen (declareClause c)) p
